@@ -954,7 +954,6 @@ func (r *RockDB) Backup(term uint64, index uint64) *BackupInfo {
 	checkpointDir := path.Join(r.GetBackupDir(), fname)
 	bi := newBackupInfo(checkpointDir)
 	r.hllCache.Flush()
-	verifCrashPoint("ck.cacheflush.after", term, index)
 	select {
 	case r.backupC <- bi:
 	default:
